@@ -650,6 +650,32 @@ def outside_project(chk):
     shutil.rmtree(d, ignore_errors=True)
 
 
+def symlinked_cwd(chk):
+    """the working directory is reached through symbolic links and the shell exports the LOGICAL path in $PWD
+    (cd link && cond ...): root discovery and include() must behave as from the physical directory"""
+    files = {"COND": 'run_command(name="r", run="true")\n', "pkg/COND": "include('c.cond')\nrun_command(name=\"a\", run=\"true\", deps=[\"//:r\"])\n",
+             "pkg/c.cond": "X = 1\n", "pkg/sub/keep": ""}
+    root = implrun.make_project(files)
+    top = os.path.dirname(root)
+    os.symlink(os.path.join(root, "pkg"), os.path.join(top, "pkg-link"))        # a package directory reached from outside the project
+    os.symlink(root, os.path.join(top, "checkout"))                              # the whole project reached through a link
+    cwds = [("physical", os.path.join(root, "pkg")), ("link-to-package", os.path.join(top, "pkg-link")),
+            ("link-to-project/pkg", os.path.join(top, "checkout", "pkg")), ("link-to-project/pkg/sub", os.path.join(top, "checkout", "pkg", "sub"))]
+    for argv in (["where", "//pkg:a", "-f"], ["run", "//pkg:a", "--check"], ["gc", "-n"]):
+        base = None
+        for label, cwd in cwds:
+            res = run_cond_retry(chk, argv, cwd, env={"PWD": cwd})
+            chk.coverage["evaluations"] += 1
+            obs = (res.code, os.path.realpath(res.out.strip()) if argv[0] == "where" and res.code == 0 else res.out.strip()[:200])
+            if base is None:
+                base = obs
+            elif obs != base:
+                chk.violation("impl-violation", "`cond %s` from %s (PWD=%s): exit %s, from the physical directory: exit %s; stderr %r" % (" ".join(argv), label, cwd, res.code, base[0], res.err[-300:]),
+                              {"input": {"kind": "symlinked-cwd", "argv": argv, "cwd": label}, "impl_observation": {"exit": res.code, "stdout": res.out[-300:], "stderr": res.err[-500:]}},
+                              match_key={"command": " ".join(argv), "cwd": "symlink"})
+    shutil.rmtree(top, ignore_errors=True)
+
+
 # ============================================================================= entry point
 def run_projects(chk, projects, only=None):
     """projects: [(label, tasks)]; only: optional (state, command label, cwd) filter for replay"""
@@ -718,6 +744,8 @@ def run(tier, seed, replay=None):
             part_root(chk, tier)
         elif kind == "outside":
             outside_project(chk)
+        elif kind == "symlinked-cwd":
+            symlinked_cwd(chk)
         else:
             print("replay: nothing to re-run (no input recorded): %s" % replay.get("summary"))
         return chk.finish()
@@ -737,6 +765,7 @@ def run(tier, seed, replay=None):
     for i, (label, tasks) in enumerate(projects[: (1 if tier == "quick" else 12)]):
         mixed_history(chk, tasks, chk.rng, label)
     outside_project(chk)
+    symlinked_cwd(chk)
     t4 = time.time()
     if tier == "thorough":
         chk.run_coqchk()
